@@ -30,9 +30,9 @@ func init() {
 // ---- identity oracle
 
 type identityReport struct {
-	bad   []string
-	refs  map[string]int // reference kind -> count
-	dump  []string       // canonical "path -> key" lines (for determinism digests)
+	bad  []string
+	refs map[string]int // reference kind -> count
+	dump []string       // canonical "path -> key" lines (for determinism digests)
 }
 
 func typeName(t types.Type) string {
@@ -616,6 +616,37 @@ func runC12(c *config) {
 		"%flag = type i1\n\ndefine %flag @k() {\n\tret %flag false\n}\n",
 		"%word = type i32\n%real = type double\n@a = global %word 7\n@b = global i32 7\n@c = global %real 1.0\n@d = global double 1.0\n@e = global %word* null\n@z = global %real zeroinitializer\n",
 	)
+	// type aliases (a definition whose body is another named type), alias chains, several aliases of one
+	// type, next to the types they name; also used as content and parameter types
+	inputs = append(inputs,
+		"%a = type %b\n%b = type { i32, %b* }\n@g = external global %a\n",
+		"%b = type { i32, %b* }\n%a = type %b\n%c = type { %b, %b }\n@g = external global %c\n@h = external global %a\n",
+		"%z = type %y\n%y = type %x\n%x = type { i8 }\n%w = type %x\n@g = external global %z\n@h = external global %w\n",
+		"%t1 = type %t9\n%t2 = type %t9\n%t3 = type %t9\n%t9 = type { i64, %t9* }\n%t5 = type { %t1, %t2 }\ndeclare void @f(%t1, %t2*, %t3, %t5)\n",
+		"%i = type i32\n%j = type %i\n%k = type %j\n@g = global %k 5\n@h = global %j 6\n",
+	)
+	{
+		ra := newRng(c.seed, "c12-alias")
+		for i := 0; i < 12*c.scale; i++ {
+			var sb strings.Builder
+			nt := 2 + ra.intn(5)
+			var lines []string
+			for t := 0; t < nt; t++ {
+				lines = append(lines, fmt.Sprintf("%%s%d = type { i%d, %%s%d* }\n", t, 8*(1+t%4), ra.intn(nt)))
+			}
+			na := 1 + ra.intn(5)
+			for a := 0; a < na; a++ {
+				lines = append(lines, fmt.Sprintf("%%al%d = type %%s%d\n", a, ra.intn(nt)))
+			}
+			for _, k := range ra.perm(len(lines)) {
+				sb.WriteString(lines[k])
+			}
+			for a := 0; a < na; a++ {
+				fmt.Fprintf(&sb, "@g%d = external global %%al%d\n", a, a)
+			}
+			inputs = append(inputs, sb.String())
+		}
+	}
 	firstRound := map[int]string{}
 	for idx, src := range inputs {
 		firstRound[idx] = digestOf(src)
